@@ -3,7 +3,9 @@
 EXTENDS KeyPolicy, TLC, Json
 CONSTANTS DoExport, MaxSet
 VARIABLES c
-AllAlgs == SigAlgs \cup EncAlgs \cup {NoAlg, Bogus}
+\* unknown names that differ from an approved one only in letter case (or by a space): names are compared exactly
+CaseVariants == {"ps512", "Es512", "es512", "EDDSA", "eddsa", "Eddsa", "PS512 "}
+AllAlgs == SigAlgs \cup EncAlgs \cup {NoAlg, Bogus} \cup CaseVariants
 Key(t, a, v, p) == [kty |-> t, alg |-> a, valid |-> v, private |-> p]
 \* keys used in key sets: one approved and one rejected shape per type is enough to tell them apart
 SetKeys == {[kty |-> "OKP", alg |-> "EdDSA", valid |-> TRUE, private |-> TRUE],
@@ -24,6 +26,6 @@ Spec == Init /\ [][Next]_c
 InvValidate == c.table = "validate" => ((ValidateImpl(c.key) = "ok") <=> Accept(c.key))
 InvLoadKey == c.table = "loadkey" => LoadKeyImpl(c.set, c.req) = LoadKeyRule(c.set, c.req)
 \* symmetric keys and non-signature algorithms never pass
-InvNoSymmetric == (c.table = "validate" /\ (c.key.kty = "oct" \/ c.key.alg \in EncAlgs \cup {NoAlg, Bogus})) => ~Accept(c.key)
+InvNoSymmetric == (c.table = "validate" /\ (c.key.kty = "oct" \/ c.key.alg \in EncAlgs \cup {NoAlg, Bogus} \cup CaseVariants)) => ~Accept(c.key)
 Export == DoExport => PrintT("CASE " \o ToJson(c))
 =============================================================================
